@@ -44,6 +44,7 @@ struct ShadowHeap {
         });
     }
     size_t live() const { return blocks.size(); }
+    size_t size_of(const void* p) const { auto it = blocks.find((uintptr_t)p); return it == blocks.end() ? 0 : it->second.size; }
 
     void on_alloc(void* p, size_t size, size_t align, bool zeroed, const char* what, rml::MemoryPool* pool = nullptr) {
         if (!p) { sim::probe("alloc-returned-null"); return; }
